@@ -1353,8 +1353,9 @@ fn some_features(rng: &mut Rng) -> Value {
     json!({"type": "FeatureCollection", "features": feats})
 }
 
-/// `documented_violation`: write the break violation object as docs/concepts/pragmatic/solution/violations.md shows it
-/// (`vehicleId`, `shiftIndex`); otherwise as the solution writer emits it (`vehicle_id`, `shift_index`).
+/// `documented_violation`: exactly the break violation object docs/concepts/pragmatic/solution/violations.md prints.
+/// Otherwise generated violations in the documented spelling (`vehicleId`, `shiftIndex`) or, for a share of the
+/// documents, in the old snake_case spelling (`vehicle_id`, `shift_index`) which is still accepted as an alias.
 fn some_solution(rng: &mut Rng, documented_violation: bool) -> Value {
     let dims = rng.range_usize(0, 3);
     let n_tours = rng.range_usize(0, 3);
@@ -1402,7 +1403,21 @@ fn some_solution(rng: &mut Rng, documented_violation: bool) -> Value {
         s.insert("violations".into(), json!([{"type": "break", "vehicleId": "my_vehicle_id", "shiftIndex": 0}]));
     } else if rng.chance(0.5) {
         let n = rng.range_usize(0, 2);
-        s.insert("violations".into(), Value::Array((0..n).map(|i| json!({"type": "break", "vehicle_id": format!("v{i}_0"), "shift_index": rng.usize_below(2)})).collect()));
+        let (vk, sk) = if rng.chance(0.25) { ("vehicle_id", "shift_index") } else { ("vehicleId", "shiftIndex") };
+        s.insert(
+            "violations".into(),
+            Value::Array(
+                (0..n)
+                    .map(|i| {
+                        let mut v = Map::new();
+                        v.insert("type".into(), json!("break"));
+                        v.insert(vk.into(), json!(format!("v{i}_0")));
+                        v.insert(sk.into(), json!(rng.usize_below(2)));
+                        Value::Object(v)
+                    })
+                    .collect(),
+            ),
+        );
     }
     if rng.chance(0.6) {
         let mut e = Map::new();
@@ -1417,6 +1432,23 @@ fn some_solution(rng: &mut Rng, documented_violation: bool) -> Value {
     let mut v = Value::Object(s);
     hostile_walk(rng, &mut v, 0.1);
     v
+}
+
+/// Renames the code-level aliases of the solution model to the canonical field names
+/// (`violations[].vehicle_id` → `vehicleId`, `violations[].shift_index` → `shiftIndex`).
+fn canonical_solution(s: &Value) -> Option<Value> {
+    let mut q = s.clone();
+    let mut any = false;
+    for v in q.get_mut("violations").and_then(|v| v.as_array_mut()).into_iter().flatten() {
+        let Some(o) = v.as_object_mut() else { continue };
+        for (old, new) in [("vehicle_id", "vehicleId"), ("shift_index", "shiftIndex")] {
+            if let Some(x) = o.remove(old) {
+                o.insert(new.into(), x);
+                any = true;
+            }
+        }
+    }
+    any.then_some(q)
 }
 
 fn cover_solution(s: &Value, out: &mut BTreeSet<String>) {
@@ -1462,6 +1494,7 @@ fn cover_solution(s: &Value, out: &mut BTreeSet<String>) {
     opt(has(s, "violations"), "Solution.violations", out);
     for v in s.get("violations").and_then(|u| u.as_array()).into_iter().flatten() {
         out.insert(format!("solution:Violation::{}", v["type"].as_str().unwrap_or("?")));
+        out.insert(format!("solution:Violation.{}", if v.get("vehicle_id").is_some() { "vehicle_id/shift_index(alias)" } else { "vehicleId/shiftIndex" }));
     }
     opt(has(s, "extras"), "Solution.extras", out);
     if let Some(e) = s.get("extras").filter(|e| !e.is_null()) {
@@ -1476,7 +1509,7 @@ fn cover_solution(s: &Value, out: &mut BTreeSet<String>) {
 fn solution_floor() -> Vec<String> {
     let mut f: Vec<String> = vec![
         "Stop::Point", "Stop::Transit", "Violation::break", "Geometry::Point", "Geometry::LineString", "Location::Coordinate", "Location::Reference", "Location::Custom",
-        "Tour.shiftIndex", "Tour.shiftIndex:absent(default)", "Timing.commuting", "Timing.commuting:absent(default)", "Timing.parking", "Timing.parking:absent(default)",
+        "Violation.vehicleId/shiftIndex", "Violation.vehicle_id/shift_index(alias)", "Tour.shiftIndex", "Tour.shiftIndex:absent(default)", "Timing.commuting", "Timing.commuting:absent(default)", "Timing.parking", "Timing.parking:absent(default)",
     ]
     .into_iter()
     .map(String::from)
@@ -1555,12 +1588,14 @@ fn doc_case(run: &Run, case_seed: u64) {
     for _ in 0..2 {
         let s = some_solution(&mut rng, false);
         cover_solution(&s, &mut cov);
-        let spec = DocSpec { kind: Kind::Solution, origin: "synthetic".into(), text: to_text(&mut rng, &s), canonical: None, from_serialiser: false, case_seed };
+        let canonical = canonical_solution(&s).map(|c| serde_json::to_string(&c).unwrap());
+        let spec = DocSpec { kind: Kind::Solution, origin: "synthetic".into(), text: to_text(&mut rng, &s), canonical, from_serialiser: false, case_seed };
         all_held &= roundtrip_doc(run, &spec);
     }
     if rng.chance(0.1) {
         // the violation object exactly as the documentation prints it
         let s = some_solution(&mut rng, true);
+        cover_solution(&s, &mut cov);
         let spec = DocSpec { kind: Kind::Solution, origin: "synthetic-documented-violation".into(), text: to_text(&mut rng, &s), canonical: None, from_serialiser: false, case_seed };
         all_held &= roundtrip_doc(run, &spec);
     }
@@ -2628,7 +2663,7 @@ fn main() {
         replay(&run, &path);
         run.finish();
     }
-    run.assume("clause 1 is decided on the serde model: extended/synthetic documents are well-formed for the model, not necessarily valid problems; documents using a code-level alias (limits.shiftTime, matrix.durations) are compared after renaming the alias to its canonical field");
+    run.assume("clause 1 is decided on the serde model: extended/synthetic documents are well-formed for the model, not necessarily valid problems; documents using a code-level alias (limits.shiftTime, matrix.durations, violations[].vehicle_id/shift_index) are compared after renaming the alias to its canonical field");
     run.assume("numbers are compared from their literals: integer literals exactly, otherwise as correctly rounded f64 within 2 ulp ('to the last but one bit'); JSON null and an absent optional field are the same on the first hop");
     run.assume("clause 2: index locations with explicit matrices; only tag-disambiguated multi-task jobs / multi-place tasks (G1 always_tag) as the documentation demands; breaks/reloads/recharges and all times are not compared; \
                 the solver is not seed-replayable, replay re-runs the oracle on the recorded documents");
@@ -2651,7 +2686,7 @@ fn main() {
 
     // ---- floors
     run.floor("documents round-tripped", run.observed_keys("documents").iter().map(|k| run.observed("documents", k)).sum(), run.by_tier(1000, 20_000));
-    for k in ["problem:g1", "problem:g1+ext", "problem:csv-import", "matrix:g1", "matrix:g1+ext", "solution:synthetic", "solution:solver", "solution:solver+geojson"] {
+    for k in ["problem:g1", "problem:g1+ext", "problem:csv-import", "matrix:g1", "matrix:g1+ext", "solution:synthetic", "solution:synthetic-documented-violation", "solution:solver", "solution:solver+geojson"] {
         run.floor(&format!("documents of class {k}"), run.observed("documents", k), 5);
     }
     for k in problem_floor().into_iter().chain(matrix_floor()).chain(solution_floor()) {
